@@ -1162,7 +1162,9 @@ class AxisInterp:
     def stack(self, e, which, env):
         arg = self.ev(e.args[0], env) if e.args else TOP
         mats = []
-        if arg.k == 'tuple' and arg.elts:
+        if e.args and isinstance(e.args[0], (ast.List, ast.Tuple)):
+            mats = [self.ev(x, env) for x in e.args[0].elts]
+        elif arg.k == 'tuple' and arg.elts:
             mats = list(arg.elts)
         elif arg.k == 'list' and arg.el is not None:
             mats = [arg.el]
